@@ -306,7 +306,9 @@ CLAIMED = {
               "flush_history_free, batch_is_pointwise (a batch's results are each document's result alone, for any initial "
               "cache and any order), batch_perm, and the counter-theorem without_clear_history_matters; (b) sorted(attrib.keys()) "
               "makes the inherited attribute context independent of storage order — sortedKeys_perm, inheritAttrib_perm, "
-              "attribToPassOn_perm (neither the order of an element's own attributes nor that of the received context matters); (c) a "
+              "attribToPassOn_perm (neither the order of an element's own attributes nor that of the received context matters), and "
+              "attribToPassOnEl_perm (the same when the element carries a style attribute whose declarations are spelled out "
+              "first: dict updates preserve permutation and key uniqueness); (c) a "
               "translator-generated inventory of every set-order exposure, id()/hash() call, ambient-state import, functools "
               "cache and mutated module-/class-level container equals the reviewed one (gen_* by decide), and cache_clear is the "
               "first call of the flush. The tie: implementation output trees and Skia questions vs the model in-process, and "
